@@ -9,14 +9,13 @@ From AV Require Import Base.Util Model.Consumer Model.ConsumerLog Proofs.Consume
 Notation ww := (wp pw_out).
 
 (* a: the state is known to be dead (stopping / stopped / start Deferred fired); b: moreover no processor result is
-   awaited ("drained").  Both persist through every method.  w: the window.  Invariant 13 of the model: a pending processor result implies a
-   block in progress. *)
-Definition inv13b (s : state) : bool := implb (is_some (s_proc s)) (is_some (s_mblock s)).
+   awaited ("drained").  Both persist through every method.  w: the window.  Invariants 13 and 6 of the model: while alive a pending
+   processor result implies a block in progress; a stopped consumer awaits no processor result. *)
+Definition inv13b (s : state) : bool := dead s || implb (is_some (s_proc s)) (is_some (s_mblock s)).
+Definition inv6b (s : state) : bool := implb (negb (is_some (s_startd s))) (negb (is_some (s_proc s))).
 Definition PInv (d : bool * bool) (w : option (Z * Z)) (s : state) : Prop :=
-  (0 <=? c_acn (s_cf s)) && inv13b s && implb (fst d) (dead s) && implb (snd d) (negb (is_some (s_proc s)))
+  (0 <=? c_acn (s_cf s)) && inv13b s && inv6b s && implb (fst d) (dead s) && implb (snd d) (negb (is_some (s_proc s)))
   && implb (snd d) (fst d) = true.
-Definition PInvF (d : bool * bool) (s : state) : Prop :=            (* PInv without invariant 13 and the drained flag *)
-  (0 <=? c_acn (s_cf s)) && implb (fst d) (dead s) = true.
 Definition PQ (d : bool * bool) (w : option (Z * Z)) {A} : res A -> gpw -> state -> Prop :=
   fun _ g s => g = pw_abs w s /\ PInv d w s.
 
@@ -68,7 +67,7 @@ Ltac case1 :=
   | H : context [s_stopping ?s] |- _ => destruct (s_stopping s) eqn:?
   | |- context [s_stopping ?s] => destruct (s_stopping s) eqn:?
   end.
-Ltac unf := unfold PQ, PF, Fp, PInv, PInvF, inv13b, pw_abs, dead, startd_unfired in *.
+Ltac unf := unfold PQ, PF, Fp, PInv, inv13b, inv6b, pw_abs, dead, startd_unfired in *.
 Ltac pfin :=
   psimpl; bcomp; bool_hyps; rw_eqs; bcomp;
   first [ reflexivity | assumption | congruence | discriminate ].
@@ -83,16 +82,17 @@ Ltac dw :=
   end.
 Ltac pquick :=
   first [ reflexivity | assumption | congruence
-        | solve [ unfold PInv, inv13b, dead, startd_unfired in *; psimpl; first [ assumption | congruence ] ]
+        | solve [ unfold PInv, inv13b, inv6b, dead, startd_unfired in *; psimpl; first [ assumption | congruence ] ]
         | solve [ unfold pw_abs; psimpl; f_equal; first [ reflexivity | congruence ] ]
         | solve [ unfold pw_abs; psimpl; rw_hyps; reflexivity ] ].
-(* only the most recent invariant hypothesis (about the current state) matters *)
+Lemma dcons d w s : PInv d w s -> implb (snd d) (fst d) = true.
+Proof. unfold PInv. intro H. apply andb_prop in H. tauto. Qed.
+(* only the most recent invariant hypothesis (about the current state) matters (and the consistency of the mode) *)
 Ltac keep_last :=
   try match goal with
   | K : PInv _ _ ?s |- _ =>
     repeat match goal with
-    | K' : PInv _ _ ?s2 |- _ => tryif constr_eq s s2 then fail else clear K'
-    | K' : PInvF _ ?s2 |- _ => tryif constr_eq s s2 then fail else clear K'
+    | K' : PInv _ _ ?s2 |- _ => tryif constr_eq s s2 then fail else (apply dcons in K')
     end
   end.
 Ltac pheavy :=
@@ -129,7 +129,6 @@ Ltac destr_post H :=
 Ltac cur_w :=
   match goal with
   | K : PInv _ ?w0 _ |- _ => w0
-  | K : PInvF _ _ |- _ => constr:(@None (Z * Z))
   end.
 Ltac after_call :=
   let r := fresh "r" in let H := fresh "P" in
@@ -191,12 +190,12 @@ Ltac c6 := idtac; first [ c5 | lazymatch goal with
   | |- wp _ (auto_commit _) _ _ _ => p_docall p_auto_commit end ].
 
 (* the callbacks on the processor's Deferred: entered with the monitor already told the outcome (ORet of the call /
-   EProcFire / OCancelProc), the model still holding the Deferred *)
+   EProcFire / OCancelProc), the model still holding the Deferred (or not yet: synchronous result) *)
 Definition fired (s : state) (last : Z) (fk : option Z) : gpw :=
   mkPW PIdle (s_plan s) (match fk with None => Some last | Some _ => s_lp s end).
-Lemma p_proc_chain last fk d s : PInvF d s ->
+Lemma p_proc_chain last fk d s : PInv d None s ->
   ww (proc_chain last fk)
-     (fun r g' s' => (g' = pw_abs None s' /\ PInvF d s') /\ s_proc s' = None /\ s_mblock s' = s_mblock s
+     (fun r g' s' => (g' = pw_abs None s' /\ PInv (fst d, fst d) None s') /\ s_proc s' = None /\ s_mblock s' = s_mblock s
                      /\ s_plan s' = s_plan s /\ s_stopping s' = s_stopping s)
      (fired s last fk) s.
 Proof.
@@ -209,194 +208,3 @@ Proof.
     | |- wp _ (handle_processor_error _) _ _ _ => p_docall_d p_handle_processor_error (fst d, false)
     | |- wp _ (auto_commit _) _ _ _ => p_docall_d p_auto_commit (fst d, false) end). all: p_done.
 Qed.
-Lemma p_emit_shutd ok v lc d w s : PInv d w s -> ww (emit_shutd (OShutD ok v lc)) (PF d w s) (pw_abs w s) s.
-Proof. intro K. unfold emit_shutd, PF, Fp. p_walk c6. all: p_done. Qed.
-Ltac c7 := idtac; first [ c6 | lazymatch goal with
-  | |- wp _ (emit_shutd (OShutD _ _ _)) _ _ _ => p_docall p_emit_shutd
-  | |- wp _ (emit_shutd (match ?x with _ => _ end)) _ _ _ => destruct x end ].
-Lemma p_interrupted d w s : PInv d w s -> ww interrupted (PF d w s) (pw_abs w s) s.
-Proof. intro K. unfold interrupted, PF, Fp. p_walk c7. all: p_done. Qed.
-Ltac c8 := idtac; first [ c7 | lazymatch goal with
-  | |- wp _ interrupted _ _ _ => p_docall p_interrupted end ].
-
-(* ---------- the re-entrant methods ---------- *)
-Definition PreD (k : kont) (d : bool * bool) (w : option (Z * Z)) (g : gpw) (s : state) : Prop :=
-  match k with
-  | KStop => g = pw_abs w s /\ PInv d w s /\ (is_some w = true -> s_proc s = None)
-  | KFireProc fk =>
-    match s_proc s with
-    | Some (l, _, _) => w = None /\ g = fired s l fk /\ PInvF d s
-    | None => g = pw_abs w s /\ PInv d w s /\ (is_some w = true -> snd d = true)
-    end
-  | KProcLoop _ => g = pw_abs w s /\ PInv d w s /\ (is_some w = true -> snd d = true) /\ s_proc s = None
-  | _ => g = pw_abs w s /\ PInv d w s /\ (is_some w = true -> snd d = true)
-  end.
-Definition dmode (k : kont) (d : bool * bool) : bool * bool :=
-  match k with KStop => (true, true) | KFireProc _ => (fst d, fst d) | _ => d end.
-Definition PostD (k : kont) (d : bool * bool) (w : option (Z * Z)) (s : state) : res unit -> gpw -> state -> Prop :=
-  fun r g' s' => g' = pw_abs w s' /\
-    (PInv (dmode k d) w s' \/ (k = KStop /\ s_startd s = None /\ PInv d w s')).   (* stop() on a stopped consumer raises *)
-
-Section Rec.
-Variable rec : kont -> M unit.
-Hypothesis Hrec : forall k d w g s, PreD k d w g s -> ww (rec k) (PostD k d w s) g s.
-
-(* a nested continuation other than KStop / KFireProc / KProcLoop, in the current mode *)
-Lemma Hrec_plain k d w s : PInv d w s -> (is_some w = true -> snd d = true) ->
-  match k with KStop | KFireProc _ | KProcLoop _ => False | _ => True end ->
-  ww (rec k) (PQ d w) (pw_abs w s) s.
-Proof.
-  intros K W Hk. eapply wp_conseq; [apply (Hrec k d w) |].
-  - destruct k; try contradiction; cbn; auto.
-  - intros r g' s' [-> [H | (E & _)]]; [| subst k; contradiction]. destruct k; try contradiction; split; auto.
-Qed.
-Lemma Hrec_stop d w s : PInv d w s -> (is_some w = true -> s_proc s = None) -> is_some (s_startd s) = true ->
-  ww (rec KStop) (PQ (true, true) w) (pw_abs w s) s.
-Proof.
-  intros K W SD. eapply wp_conseq; [apply (Hrec KStop d w) |].
-  - cbn. repeat split; auto.
-  - intros r g' s' [-> [H | (_ & E & _)]]; [split; auto | rewrite E in SD; discriminate SD].
-Qed.
-Lemma Hrec_loop msgs d w s : PInv d w s -> (is_some w = true -> snd d = true) -> s_proc s = None ->
-  ww (rec (KProcLoop msgs)) (PQ d w) (pw_abs w s) s.
-Proof.
-  intros K W N. eapply wp_conseq; [apply (Hrec (KProcLoop msgs) d w) |].
-  - cbn. auto.
-  - intros r g' s' [-> [H | (E & _)]]; [split; auto | discriminate E].
-Qed.
-
-Ltac wcond := first [ assumption | solve [intro; discriminate] | solve [cbn; intros; congruence] | solve [psolve]
-  | solve [ let H := fresh "Hw" in intro H;
-            repeat match goal with W : is_some _ = true -> _ |- _ => specialize (W H) end; psolve ] ].
-Ltac c9 := idtac; first [ c8 | lazymatch goal with
-  | |- wp _ (rec KStop) _ _ _ =>
-    let w0 := cur_w in eapply p_eq with (w := w0); [ solve [psolve] |
-      eapply wp_call; [ eapply Hrec_stop;
-                        [ try (match goal with K : PInv ?d0 _ _ |- PInv ?e _ _ => is_evar e; unify e d0 end); solve [psolve] | wcond | solve [psolve] ]
-                      | after_call ] ]
-  | |- wp _ (rec (KProcLoop _)) _ _ _ =>
-    let w0 := cur_w in eapply p_eq with (w := w0); [ solve [psolve] |
-      eapply wp_call; [ eapply Hrec_loop;
-                        [ try (match goal with K : PInv ?d0 _ _ |- PInv ?e _ _ => is_evar e; unify e d0 end); solve [psolve] | wcond | solve [psolve] ]
-                      | after_call ] ]
-  | |- wp _ (rec (KFireProc _)) _ _ _ => fail
-  | |- wp _ (rec _) _ _ _ =>
-    let w0 := cur_w in eapply p_eq with (w := w0); [ solve [psolve] |
-      eapply wp_call; [ eapply Hrec_plain;
-                        [ try (match goal with K : PInv ?d0 _ _ |- PInv ?e _ _ => is_evar e; unify e d0 end); solve [psolve] | wcond | exact I ]
-                      | after_call ] ]
-  end ].
-
-Lemma p_handle_commit_error fk i a d w s : PInv d w s -> (is_some w = true -> snd d = true) ->
-  ww (handle_commit_error rec fk i a) (PQ d w) (pw_abs w s) s.
-Proof. intros K W. unfold handle_commit_error. p_walk c9. all: p_done. Qed.
-Lemma p_fire_all ds r d w s : PInv d w s -> (is_some w = true -> snd d = true) ->
-  ww (fire_all rec ds r) (PQ d w) (pw_abs w s) s.
-Proof.
-  revert s. induction ds as [|x ds IH]; intros s K W; cbn [fire_all].
-  - p_walk c9. all: p_done.
-  - p_walk c9. all: try (apply IH; [solve [psolve] | wcond]). all: p_done.
-Qed.
-Lemma p_finish_block d w s : PInv d w s -> (is_some w = true -> snd d = true) -> s_proc s = None ->
-  ww (finish_block rec) (PQ d w) (pw_abs w s) s.
-Proof. intros K W N. unfold finish_block. p_walk c9. all: p_done. Qed.
-Ltac c10 := idtac; first [ c9 | lazymatch goal with
-  | |- wp _ (handle_commit_error _ _ _ _) _ _ _ =>
-    let w0 := cur_w in eapply p_eq with (w := w0); [ solve [psolve] |
-      eapply wp_call; [ eapply p_handle_commit_error;
-                        [ try (match goal with K : PInv ?d0 _ _ |- PInv ?e _ _ => is_evar e; unify e d0 end); solve [psolve] | wcond ]
-                      | after_call ] ]
-  | |- wp _ (fire_all _ _ _) _ _ _ =>
-    let w0 := cur_w in eapply p_eq with (w := w0); [ solve [psolve] |
-      eapply wp_call; [ eapply p_fire_all;
-                        [ try (match goal with K : PInv ?d0 _ _ |- PInv ?e _ _ => is_evar e; unify e d0 end); solve [psolve] | wcond ]
-                      | after_call ] ]
-  | |- wp _ (finish_block _) _ _ _ =>
-    let w0 := cur_w in eapply p_eq with (w := w0); [ solve [psolve] |
-      eapply wp_call; [ eapply p_finish_block;
-                        [ try (match goal with K : PInv ?d0 _ _ |- PInv ?e _ _ => is_evar e; unify e d0 end); solve [psolve] | wcond | solve [psolve] ]
-                      | after_call ] ]
-  end ].
-
-(* stop()'s cancellation of the processor's Deferred: afterwards the state is drained *)
-Lemma p_stop_proc (d : bool * bool) w s : PInvF (true, snd d) s -> (is_some w = true -> s_proc s = None) ->
-  ww (stop_proc rec) (PQ (true, true) w) (pw_abs w s) s.
-Proof.
-  intros K W. unfold stop_proc. apply wp_bind, wp_get. cbn beta iota.
-  destruct (s_proc s) as [[[l rest] c]|] eqn:D.
-  - destruct w as [[wl wr]|]; [specialize (W eq_refl); discriminate W|].
-    apply wp_bind. apply wp_emit. eexists. split.
-    { unfold pw_abs. cbn [pw_out w_st]. rewrite D. reflexivity. }
-    cbn beta iota. apply wp_swallow.
-    eapply wp_conseq; [apply (Hrec (KFireProc (Some FK_CANCELLED)) (true, snd d) None) |].
-    + cbn [PreD]. rewrite D. repeat split; auto.
-    + intros r g' s' [-> [H | (E & _)]]; [split; auto | discriminate E].
-  - apply wp_ret. split; [reflexivity|]. unfold PInv, PInvF, inv13b in *. cbn [fst snd] in *. rewrite D. cbn.
-    rewrite !andb_true_r. exact K.
-Qed.
-Lemma p_stop_rcall d w s : PInv d w s -> ww stop_rcall (PF d w s) (pw_abs w s) s.
-Proof. intro K. unfold stop_rcall, PF, Fp. p_walk c10. all: p_done. Qed.
-Lemma p_stop_creq d w s : PInv d w s -> (is_some w = true -> snd d = true) -> ww (stop_creq rec) (PQ d w) (pw_abs w s) s.
-Proof. intros K W. unfold stop_creq. p_walk c10. all: p_done. Qed.
-Lemma p_stop_ccall d w s : PInv d w s -> ww stop_ccall (PF d w s) (pw_abs w s) s.
-Proof. intro K. unfold stop_ccall, PF, Fp. p_walk c10. all: p_done. Qed.
-Lemma p_stop_looper d w s : PInv d w s -> ww stop_looper (PF d w s) (pw_abs w s) s.
-Proof. intro K. unfold stop_looper, PF, Fp. p_walk c10. all: p_done. Qed.
-Lemma p_stop_susp d w s : PInv d w s -> ww stop_susp (PF d w s) (pw_abs w s) s.
-Proof. intro K. unfold stop_susp, PF, Fp. p_walk c10. all: p_done. Qed.
-Ltac c11 := idtac; first [ c10 | lazymatch goal with
-  | |- wp _ stop_rcall _ _ _ => p_docall p_stop_rcall
-  | |- wp _ stop_ccall _ _ _ => p_docall p_stop_ccall
-  | |- wp _ stop_looper _ _ _ => p_docall p_stop_looper
-  | |- wp _ stop_susp _ _ _ => p_docall p_stop_susp
-  | |- wp _ (stop_creq _) _ _ _ =>
-    let w0 := cur_w in eapply p_eq with (w := w0); [ solve [psolve] |
-      eapply wp_call; [ eapply p_stop_creq;
-                        [ try (match goal with K : PInv ?d0 _ _ |- PInv ?e _ _ => is_evar e; unify e d0 end); solve [psolve] | wcond ]
-                      | after_call ] ]
-  end ].
-Lemma p_stop_req d w s : PInv d w s ->
-  ww stop_req (fun r g' s' => PF d w s r g' s' /\ r = Ok tt) (pw_abs w s) s.
-Proof. intro K. unfold stop_req, PF, Fp. p_walk c10. all: p_done. Qed.
-
-Ltac fin_stop := try solve [ split; [ solve [psolve] | left; solve [psolve] ] ].
-Lemma p_body_KStop d w s : PInv d w s -> (is_some w = true -> s_proc s = None) ->
-  ww (body rec KStop) (PostD KStop d w s) (pw_abs w s) s.
-Proof.
-  intros K W. cbn [body]. unfold PostD, dmode.
-  apply wp_bind, wp_get. cbn beta iota. destruct (s_startd s) as [b|] eqn:SD.
-  2:{ apply wp_raise. split; auto. }
-  apply wp_bind, wp_upd. cbn beta iota.
-  (* stopping: the state is dead from here on *)
-  assert (K1 : PInv (true, false) w (set_stopping true s)) by psolve. clear K.
-  apply wp_bind. p_docall_d p_stop_req (true, false). all: try discriminate. all: fin_stop.
-  (* the parked reply is dropped: invariant 13 is suspended until the processor's Deferred is cancelled *)
-  unfold stop_mblock. apply wp_bind, wp_bind, wp_get. cbn beta iota.
-  assert (W' : is_some w = true -> s_proc s' = None)
-    by (intro; match goal with H : s_proc s' = _ |- _ => rewrite H end; psimpl; auto).
-  match goal with |- wp _ (match ?x with _ => _ end) _ _ _ => destruct x eqn:MB end; wp_prim; cbn beta iota.
-  all: apply wp_bind; eapply p_eq with (w := w); [reflexivity|];
-    (eapply wp_call; [ apply (p_stop_proc (true, false) w); [ psolve | psimpl; exact W' ] |]);
-    after_call; fin_stop;
-    unfold stop_startd; p_walk c11; fin_stop.
-Qed.
-
-Ltac fin_k := try solve [ split; [ solve [psolve] | left; solve [psolve] ] ].
-Lemma p_body_KStopCds d w s : PInv d w s -> (is_some w = true -> snd d = true) ->
-  ww (body rec KStopCds) (PostD KStopCds d w s) (pw_abs w s) s.
-Proof. intros K W. cbn [body]. unfold PostD, dmode. p_walk c11. all: fin_k. Qed.
-Lemma p_body_KFetchResp offs ts d w s : PInv d w s -> (is_some w = true -> snd d = true) ->
-  ww (body rec (KFetchResp offs ts)) (PostD (KFetchResp offs ts) d w s) (pw_abs w s) s.
-Proof. intros K W. cbn [body]. unfold PostD, dmode. p_walk c11. all: fin_k. Qed.
-Lemma p_body_KCommitAndStop d w s : PInv d w s -> (is_some w = true -> snd d = true) ->
-  ww (body rec KCommitAndStop) (PostD KCommitAndStop d w s) (pw_abs w s) s.
-Proof. intros K W. cbn [body]. unfold PostD, dmode. p_walk c11. all: fin_k. Qed.
-Lemma p_body_KShutFinish fk d w s : PInv d w s -> (is_some w = true -> snd d = true) ->
-  ww (body rec (KShutFinish fk)) (PostD (KShutFinish fk) d w s) (pw_abs w s) s.
-Proof. intros K W. cbn [body]. unfold PostD, dmode. p_walk c11. all: fin_k. Qed.
-Lemma p_body_KFireCd x r d w s : PInv d w s -> (is_some w = true -> snd d = true) ->
-  ww (body rec (KFireCd x r)) (PostD (KFireCd x r) d w s) (pw_abs w s) s.
-Proof. intros K W. cbn [body]. unfold PostD, dmode. p_walk c11. all: fin_k. Qed.
-Lemma p_body_KDeliver r d w s : PInv d w s -> (is_some w = true -> snd d = true) ->
-  ww (body rec (KDeliver r)) (PostD (KDeliver r) d w s) (pw_abs w s) s.
-Proof. intros K W. cbn [body]. unfold PostD, dmode. p_walk c11. all: fin_k. Qed.
